@@ -1,4 +1,5 @@
 import CentrifugeVerif.Proofs.Survey
+import CentrifugeVerif.Gen.SurveyAddr
 /-!
 # C41 — Survey collects one answer per node and terminates
 
@@ -138,6 +139,17 @@ theorem response_effect (s s' : State) (uid : Uid) (id code : Nat)
   · cases h; exact Or.inl ht
   · cases h
     exact deliver_get (Reply.mk uid code id) s.surveys t sv ht
+
+/-- **addressing of the response** (over `Gen/SurveyAddr.lean`, regenerated from `node.go` on every
+run): inside `handleSurveyRequest` the one `publishControl` call is given exactly the parameter that
+names the requesting node, and `handleControl` passes the sender uid of the request command as that
+parameter.  Together with the Controller contract (a non-empty node id = deliver to that node only)
+this is what makes the model's `response` label apply to the requester's state only; a response
+broadcast with an empty node id would reach other nodes' surveys that happen to have the same
+per-node id. -/
+theorem survey_response_addressed_to_requester :
+    Gen.SurveyAddr.responseTargets = [Gen.SurveyAddr.requesterParam] ∧
+    Gen.SurveyAddr.requestCallArgSource = "cmd.Uid" := by decide
 
 /-- a response from the node's own uid is dropped by `handleControl` -/
 theorem own_uid_dropped (s : State) (id code : Nat) : next s (.response selfUid id code) = some s := by
